@@ -33,6 +33,39 @@ Lemma extracted_call_sites :
   c11_bid_stake_pack = [bos "getAllowance"] /\ c11_bid_stake_unpack = [bos "getAllowance"].
 Proof. repeat split; reflexivity. Qed.
 
+(* --- how the node is assembled (pkg/node/node.go: NewNode) ----------------------------------- *)
+Fixpoint prefixb (p l : bytes) : bool :=
+  match p, l with
+  | [], _ => true
+  | a :: p', b :: l' => (a =? b) && prefixb p' l'
+  | _ :: _, [] => false
+  end.
+Fixpoint containsb (p l : bytes) : bool :=
+  prefixb p l || match l with [] => false | _ :: r => containsb p r end.
+Definition arg_of (k : nat) (rows : list (list bytes)) : list bytes := map (fun row => nth k row []) rows.
+
+(* which contract address each registry object is built with, and who gets which object *)
+Lemma node_wiring :
+  (* the one assignment of each address: from the option of the same name *)
+  c11_node_provreg_addr = [bos "common.HexToAddress(opts.ProviderRegistryContract)"] /\
+  c11_node_bidreg_addr = [bos "common.HexToAddress(opts.BidderRegistryContract)"] /\
+  (* the one constructor call of each package: that address, the node's evm client *)
+  arg_of 0 c11_node_provreg_new_args = [bos "providerRegistryContractAddr"] /\
+  arg_of 1 c11_node_provreg_new_args = [bos "evmClient"] /\
+  arg_of 0 c11_node_bidreg_new_args = [bos "bidderRegistryContractAddr"] /\
+  arg_of 1 c11_node_bidreg_new_args = [bos "evmClient"] /\
+  (* the one assignment of each object: the result of the constructor of its own package *)
+  map (prefixb (bos "provider_registrycontract.New(")) c11_node_provreg_obj = [true] /\
+  map (prefixb (bos "bidder_registrycontract.New(")) c11_node_bidreg_obj = [true] /\
+  (* the handshake (libp2p.Options.Register) gets the PROVIDER registry *)
+  map (containsb (bos " Register: providerRegistry, ")) (arg_of 0 c11_node_libp2p_args) = [true] /\
+  (* the preconfirmation handler (both branches) gets the BIDDER registry as its allowance store *)
+  arg_of 3 c11_node_preconf_new_args = [bos "bidderRegistry"; bos "bidderRegistry"] /\
+  (* the RPC services: stake -> provider registry, prepay -> bidder registry *)
+  arg_of 1 c11_node_providerapi_args = [bos "providerRegistry"] /\
+  arg_of 2 c11_node_bidderapi_args = [bos "bidderRegistry"].
+Proof. repeat split; vm_compute; reflexivity. Qed.
+
 Lemma provider_signatures :
   method_sig (r_register provider_registry) [] = bos "registerAndStake()" /\
   method_sig (r_min provider_registry) [] = bos "minStake()" /\
@@ -316,6 +349,41 @@ Section Facts.
     - intros (h & -> & Hw). destruct late; [discriminate|]. split; [reflexivity|]. exists h. auto.
     - intros (-> & h & -> & ->). exists h. auto.
   Qed.
+  (* the only way to a crash: a nil receipt without an error *)
+  Lemma register_panic amount s w :
+    snd (register kec cfg reg amount s w) = Panic <-> exists h, s = SHash h /\ w = WNil.
+  Proof.
+    unfold register. split.
+    - destruct s as [|h]; cbn [snd]; [discriminate|]. destruct w as [| |st]; try discriminate.
+      + intros _. exists h. auto.
+      + destruct (st =? receipt_status_successful); discriminate.
+    - intros (h & -> & ->). reflexivity.
+  Qed.
+
+  (* every answer of the client is covered: success, error or (nil receipt only) crash *)
+  Lemma register_total amount s w :
+    match snd (register kec cfg reg amount s w) with
+    | Ok _ => exists h, s = SHash h /\ w = WReceipt 1
+    | Panic => exists h, s = SHash h /\ w = WNil
+    | Err _ => s = SErr \/ w = WErr \/ exists st, w = WReceipt st /\ st <> 1
+    end.
+  Proof.
+    unfold register. destruct s as [|h]; cbn [snd]; [auto|].
+    destruct w as [| |st]; [auto|exists h; auto|].
+    unfold receipt_status_successful. destruct (N.eqb_spec st 1) as [->|Hne]; [exists h; auto|].
+    right. right. exists st. auto.
+  Qed.
+
+  Lemma register_errors_strong amount s w :
+    w <> WNil -> ~ (exists h, s = SHash h /\ w = WReceipt 1) ->
+    exists c, snd (register kec cfg reg amount s w) = Err c.
+  Proof.
+    intros Hn Hno. pose proof (register_total amount s w) as H.
+    destruct (snd (register kec cfg reg amount s w)) as [u|c|].
+    - contradiction.
+    - exists c. reflexivity.
+    - destruct H as (h & _ & Hw). contradiction.
+  Qed.
 End Facts.
 
 (* --- non-vacuity ------------------------------------------------------------------------------- *)
@@ -488,11 +556,13 @@ Proof.
       unfold register in E. destruct s; injection E as <- <-; cbn [sends flat_map app]; apply txreq_eqb_refl. }
     rewrite Hs. cbn [negb].
     destruct (res c) as [|?|o|? ?| | |]; try discriminate.
-    destruct o as [|p]; [|reflexivity].
-    assert (Hok : snd (register kec cfg (reg c) amt s w) = Ok tt).
-    { rewrite E. cbn [snd]. destruct r as [[]|?|]; cbn in Hr; try discriminate; reflexivity. }
+    apply N.eqb_eq in Hr. subst o.
+    destruct r as [[]|cc|]; cbn [reg_code]; [|reflexivity|].
+    2:{ assert (Hp : snd (register kec cfg (reg c) amt s w) = Panic) by (rewrite E; reflexivity).
+        apply register_panic in Hp. destruct Hp as (h & -> & ->). reflexivity. }
+    assert (Hok : snd (register kec cfg (reg c) amt s w) = Ok tt) by (rewrite E; reflexivity).
     apply register_ok_trace in Hok. destruct Hok as (h & -> & -> & Hf). rewrite E in Hf. cbn [fst] in Hf.
-    unfold mined_ok. rewrite <- Ht, Hf. cbn [sends flat_map app waited_after_send andb orb negb N.eqb Pos.eqb].
+    cbn [N.eqb]. unfold mined_ok. rewrite <- Ht, Hf. cbn [sends flat_map app waited_after_send andb orb negb N.eqb Pos.eqb].
     rewrite bytes_eqb_refl. reflexivity.
   - (* the RPC method *)
     destruct (svc_register kec cfg (reg c) owner valid parsed s w a) as [t r] eqn:E.
@@ -501,11 +571,11 @@ Proof.
     destruct valid; cbn [negb] in E.
     2:{ injection E as <- <-. unfold sends_ok. rewrite <- Ht. cbn.
         destruct (res c) as [| | |code am| | |]; try discriminate.
-        destruct code as [|p]; [discriminate|reflexivity]. }
+        cbn [svc_agrees] in Hr. destruct am; [discriminate|]. apply N.eqb_eq in Hr. subst code. reflexivity. }
     destruct parsed as [z|].
     2:{ injection E as <- <-. unfold sends_ok. rewrite <- Ht. cbn.
         destruct (res c) as [| | |code am| | |]; try discriminate.
-        destruct code as [|p]; [discriminate|reflexivity]. }
+        cbn [svc_agrees] in Hr. destruct am; [discriminate|]. apply N.eqb_eq in Hr. subst code. reflexivity. }
     destruct (register kec cfg (reg c) (Some z) s w) as [t1 r1] eqn:E1.
     assert (Hs1 : sends t1 = [want_send c (Some z)] /\ calls t1 = []).
     { pose proof (register_value kec cfg (reg c) (Some z) s w) as (H1 & _ & H3). rewrite E1 in H1, H3.
@@ -521,23 +591,27 @@ Proof.
           unfold sends; rewrite ?flat_map_app; fold (sends t1); rewrite Hs1; cbn [flat_map app]; apply txreq_eqb_refl. }
       rewrite Hs. cbn [negb].
       destruct (res c) as [| | |code am| | |]; try reflexivity.
-      destruct code as [|p]; [|reflexivity].
-      unfold mined_ok. rewrite <- Ht. unfold get_stake in E.
-      destruct a as [|b]; [|destruct (decode_uint256 b)]; injection E as <- <-; rewrite Hf;
-        cbn [sends flat_map app waited_after_send andb orb negb N.eqb Pos.eqb];
-        rewrite bytes_eqb_refl; reflexivity.
+      unfold get_stake in E.
+      destruct a as [|b]; [|destruct (decode_uint256 b)]; injection E as <- <-; cbn [svc_agrees] in Hr;
+        destruct am; try discriminate; try (apply N.eqb_eq in Hr; subst code; reflexivity).
+      apply andb_true_iff in Hr. destruct Hr as [Hc _]. apply N.eqb_eq in Hc. subst code.
+      unfold mined_ok. rewrite <- Ht, Hf.
+      cbn [sends flat_map app waited_after_send andb orb negb N.eqb Pos.eqb].
+      rewrite bytes_eqb_refl. reflexivity.
     + injection E as <- <-.
       assert (Hs : sends_ok c (Some (Some z)) = true).
       { unfold sends_ok. rewrite <- Ht, Hs1. apply txreq_eqb_refl. }
       rewrite Hs. cbn [negb].
       destruct (res c) as [| | |code am| | |]; try discriminate.
-      destruct code as [|p]; [discriminate|reflexivity].
+      cbn [svc_agrees] in Hr. destruct am; [discriminate|]. apply N.eqb_eq in Hr. subst code. reflexivity.
     + injection E as <- <-.
       assert (Hs : sends_ok c (Some (Some z)) = true).
       { unfold sends_ok. rewrite <- Ht, Hs1. apply txreq_eqb_refl. }
       rewrite Hs. cbn [negb].
       destruct (res c) as [| | |code am| | |]; try discriminate.
-      destruct code as [|p]; [discriminate|reflexivity].
+      cbn [svc_agrees] in Hr. destruct am; [discriminate|]. apply N.eqb_eq in Hr. subst code.
+      assert (Hp : snd (register kec cfg (reg c) (Some z) s w) = Panic) by (rewrite E1; reflexivity).
+      apply register_panic in Hp. destruct Hp as (h & -> & ->). reflexivity.
   - (* stake / prepay through the real client *)
     destruct (register kec cfg (reg c) amt s (evm_wait late w)) as [t r] eqn:E.
     rewrite andb_true_iff. intros [Ht Hr]. apply trace_eqb_eq in Ht.
@@ -546,12 +620,15 @@ Proof.
       unfold register in E. destruct s; injection E as <- <-; cbn [sends flat_map app]; apply txreq_eqb_refl. }
     rewrite Hs. cbn [negb].
     destruct (res c) as [|?|o|? ?| | |]; try discriminate.
-    destruct o as [|p]; [|reflexivity].
-    assert (Hok : snd (register kec cfg (reg c) amt s (evm_wait late w)) = Ok tt).
-    { rewrite E. cbn [snd]. destruct r as [[]|?|]; cbn in Hr; try discriminate; reflexivity. }
+    apply N.eqb_eq in Hr. subst o.
+    destruct r as [[]|cc|]; cbn [reg_code]; [|reflexivity|].
+    2:{ assert (Hp : snd (register kec cfg (reg c) amt s (evm_wait late w)) = Panic) by (rewrite E; reflexivity).
+        apply register_panic in Hp. destruct Hp as (h & -> & Hw).
+        destruct late; cbn [evm_wait] in Hw; [discriminate|]. subst w. reflexivity. }
+    assert (Hok : snd (register kec cfg (reg c) amt s (evm_wait late w)) = Ok tt) by (rewrite E; reflexivity).
     apply register_ok_trace in Hok. destruct Hok as (h & -> & Hw & Hf). rewrite E in Hf. cbn [fst] in Hf.
     destruct late; cbn [evm_wait] in Hw; [discriminate|]. subst w.
-    unfold mined_ok. rewrite <- Ht, Hf. cbn [sends flat_map app waited_after_send andb orb negb N.eqb Pos.eqb].
+    cbn [N.eqb]. unfold mined_ok. rewrite <- Ht, Hf. cbn [sends flat_map app waited_after_send andb orb negb N.eqb Pos.eqb].
     rewrite bytes_eqb_refl. reflexivity.
 Qed.
 
